@@ -87,6 +87,26 @@ func effects(sp *refspec.Spec, pre, post *refspec.State) []string {
 	if sp.CurrentEpoch(post)-sp.CurrentEpoch(pre) >= 3 {
 		m["advance>=3-epochs"] = true
 	}
+	// which of the four finalization rules held in this (single) epoch transition — several can hold at once
+	if cur := sp.CurrentEpoch(pre); sp.CurrentEpoch(post) == cur+1 && cur > 1 && len(post.JustificationBits) == 4 {
+		b, op, oc := post.JustificationBits, pre.PreviousJustifiedCheckpoint.Epoch, pre.CurrentJustifiedCheckpoint.Epoch
+		var held []string
+		if b[1] && b[2] && b[3] && op+3 == cur {
+			held = append(held, "1")
+		}
+		if b[1] && b[2] && op+2 == cur {
+			held = append(held, "2")
+		}
+		if b[0] && b[1] && b[2] && oc+2 == cur {
+			held = append(held, "3")
+		}
+		if b[0] && b[1] && oc+1 == cur {
+			held = append(held, "4")
+		}
+		if len(held) > 0 {
+			m["finalization-rules:"+strings.Join(held, "+")] = true
+		}
+	}
 	out := make([]string, 0, len(m))
 	for k := range m {
 		out = append(out, k)
@@ -427,6 +447,7 @@ var tours = []struct {
 		return cc
 	}},
 	{"upgrades-after-sync-rotation", sim.TourUpgradesAfterSyncRotation},
+	{"justification-patterns", sim.TourJustificationPatterns},
 	{"ejection-wave-capped-activation-churn", func(rt *rapid.T) *sim.ChainCase {
 		// partial participation with large base rewards: the non-attesters of an epoch fall below the
 		// ejection balance together, several are ejected at one boundary while get_validator_churn_limit
